@@ -35,6 +35,19 @@ func (r *rng) intn(n int) int { return int(r.next() % uint64(n)) }
 
 type mapper struct{}
 
+// the maps of a schema cache: handed out by reference, shared by every goroutine, never to be written by the library
+var sharedFields = map[string]influxql.DataType{"value": influxql.Float, "v1": influxql.Integer, "usage": influxql.Unsigned, "s": influxql.String}
+var sharedDims = map[string]struct{}{"host": {}, "region": {}}
+
+type cachingMapper struct{ mapper }
+
+func (cachingMapper) FieldDimensions(m *influxql.Measurement) (map[string]influxql.DataType, map[string]struct{}, error) {
+	if m.Name == "bad" {
+		return nil, nil, errors.New("no schema")
+	}
+	return sharedFields, sharedDims, nil
+}
+
 func (mapper) FieldDimensions(m *influxql.Measurement) (map[string]influxql.DataType, map[string]struct{}, error) {
 	if m.Name == "bad" {
 		return nil, nil, errors.New("no schema")
@@ -162,6 +175,13 @@ var astOps = []struct {
 	}},
 	{"Statement.Reduce", func(q *influxql.SelectStatement) string {
 		return q.Reduce(&influxql.NowValuer{Now: now}).String()
+	}},
+	{"RewriteFields(shared schema maps)", func(q *influxql.SelectStatement) string {
+		r, err := q.RewriteFields(cachingMapper{})
+		if err != nil {
+			return "error:" + err.Error()
+		}
+		return r.String()
 	}},
 	{"RewriteFields", func(q *influxql.SelectStatement) string {
 		r, err := q.RewriteFields(mapper{})
